@@ -224,7 +224,7 @@ func radiaShadow(g *hermes.GlobalVarsMain, l *hermes.CropSharedVars, temptyp int
 	}
 
 	// ! ----------- MAINTENANCE IN ABH. VON TEMPERATUR -----------
-	TEFF := math.Pow(2., (.1*g.TEMP[g.TAG.Index] - 2.5))
+	TEFF := rec.o("teff", math.Pow(2., (.1*g.TEMP[g.TAG.Index] - 2.5)))
 	MAINORG := make([]float64, g.NRKOM)
 	var MAINTS float64
 	for i := 0; i < g.NRKOM; i++ {
